@@ -25,15 +25,17 @@ def residAbs (n m₁ m₂ : ℕ) (X : T3) (T : ℕ → Comp) (c : ℕ → ℚ) :
 
 def answer (l : String) : String :=
   match tokens l with
-  | ["ctl", mx, ad, tol, k, rs] =>
-    match mx.toNat?, ad.toNat?, parseRat? tol, k.toNat?, parseRatios? rs with
-    | some max, some a, some tol, some K, some R =>
+  | ["ctl", mx, ad, tol, k, nzs, rs] =>
+    match mx.toNat?, ad.toNat?, parseRat? tol, k.toNat?, parseNatVec? nzs, parseRatios? rs with
+    | some max, some a, some tol, some K, some NZ, some R =>
+      let nza := NZ.toArray
+      let nz : ℕ → Bool := fun c => nza.getD c 1 != 0
       let Ra := (R.map List.toArray).toArray
       let ratios : ℕ → ℕ → Ratio := fun c j => (Ra.getD c #[]).getD j Ratio.missing
-      match fitCtlRec ratios max (a != 0) K tol with
+      match fitCtlRec nz ratios max (a != 0) K tol with
       | none => "diverged"
       | some (ns, t, _) => "ok " ++ showNatVec ns ++ " " ++ showRat t
-    | _, _, _, _, _ => "bad"
+    | _, _, _, _, _, _ => "bad"
   | ["fit", n, m1, m2, k, x, u, v, w, pos] =>
     match n.toNat?, m1.toNat?, m2.toNat?, k.toNat?, parseMat? x, parseMat? u, parseMat? v, parseMat? w,
           parseNatVec? pos with
